@@ -11,6 +11,8 @@ CONSTANTS
   TeardownLoop = TRUE
   Registers = FALSE
   FlushRegs = TRUE
+  Holders = FALSE
+  RootCountOnce = FALSE
   StopOps = FALSE
 VIEW view
 ACTION_CONSTRAINT EmitEdge
